@@ -16,12 +16,13 @@ PROP = {'title': 'Algorithm and container helpers equal their straightforward re
                'run with the free (term-building) function, which fixes the result for every function by parametricity',
  'binaries': [{'name': 'C16',
                'sources': ['harness/C16.cpp', 'harness/C16_algorithm.cpp', 'harness/C16_algorithm2.cpp', 'harness/C16_container.cpp',
-                           'harness/C16_array_tuple.cpp', 'harness/C16_hetero.cpp'],
+                           'harness/C16_array_tuple.cpp', 'harness/C16_hetero.cpp', 'harness/C16_callbacks.cpp'],
                'libs': [], 'flavour': 'asan'}],
  'compile_probes': [{'name': 'array_append_lvalue', 'source': 'harness/C16_probe_array_append_lvalue.cpp'},
                     {'name': 'array_push_back_lvalue', 'source': 'harness/C16_probe_array_push_back_lvalue.cpp'},
                     {'name': 'array_join_lvalue', 'source': 'harness/C16_probe_array_join_lvalue.cpp'},
                     {'name': 'tuple_concat_lvalue', 'source': 'harness/C16_probe_tuple_concat_lvalue.cpp'},
+                    {'name': 'get_or_insert_non_default_constructible_mapped', 'source': 'harness/C16_probe_get_or_insert_ndc.cpp'},
                     {'name': 'hetero_equal_range_binary_search', 'source': 'harness/C16_probe_hetero.cpp', 'flags': ['-DC16_PROBE_KIND=1']},
                     {'name': 'hetero_contains_find_opt_find_by_opt', 'source': 'harness/C16_probe_hetero.cpp', 'flags': ['-DC16_PROBE_KIND=2']},
                     {'name': 'hetero_index_of', 'source': 'harness/C16_probe_hetero.cpp', 'flags': ['-DC16_PROBE_KIND=3']},
@@ -42,7 +43,13 @@ PROP = {'title': 'Algorithm and container helpers equal their straightforward re
          'binary_search, contains, find_opt, index_of, find_by_opt, remove, fold and fold_break (state of the other type); at_optional '
          'with 7 index types; find_opt_iterator / find_opt / find_opt_mapped / get_or_insert with keys of another type on maps with and '
          'without a transparent comparator (int keys vs short / long long / double, string keys vs string_view / char const*); '
-         'join_strings / split_string with delimiters of another type; a case is one (instantiation, input, parameter) tuple and is non-trivial when the range has at least two '
+         'join_strings / split_string with delimiters of another type; iterator categories: map (targets vector, string, deque, list, set), '
+         'map_optional, map_concat, fold, fold_break, loop, loop_break, all_of, contains(_if), find_opt / find_if_opt / find_by_opt over a '
+         'really single-pass input range (shared cursor, every traversal counted), forward, bidirectional and random-access ranges without '
+         'size(); callback behaviours: get_or_insert(_with_result) on all maps over 3 keys x all key sequences up to length 3 x create '
+         'throwing at its call 1..3, create observing size()/count(key) of the container, the interning idiom over all sequences, create '
+         're-entering get_or_insert on the same std::map; every range algorithm with a callback throwing at call 1..3 over all sequences '
+         'up to length 4; sequence_iteration / map_iteration with a throwing action; a case is one (instantiation, input, parameter) tuple and is non-trivial when the range has at least two '
          'elements / the early stop, removal, duplicate or boundary that the function is about actually occurs (per-function predicate '
          'in the harness sources)',
  'assumptions': ['std::equal_range precondition: cases where the sequence is not partitioned with respect to the searched value are skipped '
@@ -62,5 +69,14 @@ PROP = {'title': 'Algorithm and container helpers equal their straightforward re
                  'arithmetic conversions for the types used), never after narrowing to the element type; where the documented signature '
                  'itself converts the argument (remove: const_reference, get_or_insert: key_type, split_string: value_type delimiter, '
                  'std::map::find without a transparent comparator) only values representable in the target type are used',
+                 'a single-pass source must be traversed at most once (:source_read_twice) and still give the result of the plain loop',
+                 'get_or_insert: the documentation says the mapped object is created and then inserted, hence: a throwing create leaves no '
+                 'entry for the key, a later call creates it, create sees the container without the new key, and the mapped type need not be '
+                 'default-constructible (compile probe)',
+                 'throwing callbacks of range algorithms: only propagation, the number of invocations (exactly k) and an unchanged lvalue source '
+                 'are asserted; for sequence_iteration / map_iteration the container must remain a sub-sequence of the original that still holds '
+                 'everything the action did not ask to remove (whether removals already decided are applied is not asserted)',
+                 'throwing comparators of the set operations and throwing predicates of remove_if / unique_if are not exercised (nothing '
+                 'documented beyond what std gives)',
                  'every heterogeneous instantiation is also a compile probe (compile:hetero_<family>): a change that makes it ill-formed '
                  'is reported as a violation']}
